@@ -208,6 +208,16 @@ func genLBHistory(r *rng.R, maxHosts, maxOps int, allowSet bool) []string {
 		case c < 9:
 			ops = append(ops, "P")
 			nplans++
+		case c == 10 && r.Chance(1, 3): // a bootstrap notification again, with whatever the cluster then knows
+			members = map[string]bool{}
+			var again []string
+			for _, k := range pool {
+				if r.Chance(1, 2) {
+					again = append(again, k)
+					members[k] = true
+				}
+			}
+			ops = append(ops, "B:"+strings.Join(again, ","))
 		case c == 9 && allowSet:
 			// jump close to the uint32 wrap
 			ops = append(ops, fmt.Sprintf("S:%d", []uint64{1 << 32, 0}[r.Intn(2)]-uint64(1+r.Intn(4))))
@@ -231,6 +241,8 @@ func genLB(e *emitter, r *rng.R, n int, tier string) {
 		{"B:h0,h1,h2", "S:4294967295", "P", "N:0", "N:0", "N:0", "N:0"},
 		{"B:h0,h1,h2", "S:18446744073709551615", "P", "N:0", "N:0", "N:0", "N:0", "P", "N:1"},
 		{"B:h0,h1,h2", "P", "P", "P", "P", "N:0", "N:1", "N:2", "N:3"},
+		{"B:h0,h1", "P", "B:h2,h3,h4", "P", "N:1", "N:1", "N:1", "N:1", "N:0", "N:0", "N:0"},
+		{"B:h0", "A:h1", "R:h0", "B:h0,h2", "P", "N:0", "N:0", "N:0"},
 		{"B:h0,h1,h2,h3", "P", "R:h1", "N:0", "N:0", "N:0", "N:0", "N:0", "P", "N:1", "N:1", "N:1", "N:1"},
 	}
 	// plans created by many goroutines at once (every request creates one): the counter must hand each its own offset
